@@ -196,6 +196,11 @@ func vfGenDetCfg(t *rapid.T, dynamic bool, big bool) vfDetCfg {
 	c.OneDiff = rapid.Bool().Draw(t, "onediff")
 	c.Dynamic = dynamic
 	c.PreviewFrames = rapid.IntRange(0, 6).Draw(t, "previewframes")
+	if !dynamic && rapid.IntRange(0, 3).Draw(t, "stray_bounds") == 0 {
+		// temp-thresh-min / max are dynamic-threshold settings: with a fixed threshold they must not matter
+		c.TMin = rapid.SampledFrom([]uint16{0, 500, 3200, 40000}).Draw(t, "stray_tmin")
+		c.TMax = rapid.SampledFrom([]uint16{0, 800, 2800, 50000}).Draw(t, "stray_tmax")
+	}
 	if dynamic {
 		switch rapid.IntRange(0, 3).Draw(t, "bounds") {
 		case 1:
@@ -251,6 +256,10 @@ func vfGenTimeline(t *rapid.T, n int, ffc bool, resets bool) []vfDetFrame {
 	fr := make([]vfDetFrame, n)
 	on := uint32(60000)
 	last := uint32(0)
+	if ffc && rapid.IntRange(0, 5).Draw(t, "poweron") == 0 {
+		// the camera has just been powered on: time-on starts near 0 and the last FFC is the power-on FFC at time 0
+		on = uint32(rapid.SampledFrom([]int{0, 1, 500, 9000, 9900}).Draw(t, "on0"))
+	}
 	for i := range fr {
 		step := uint32(111)
 		if ffc {
